@@ -21,7 +21,7 @@ func init() {
 			}
 			return 40000
 		},
-		Rule: "case = one valid persisted root (both formats, int/uint64/string/bytes/struct/user keys, bf 2..16, top node with >= 2 keys where possible, heights 0..6, with and without a node cache that already holds the top node) and every applicable perturbation of (root, store, config): NodeFormat unknown / the other format; Link to a missing node; top-node bytes truncated at every offset (thorough) or 24 sampled offsets (quick), replaced by garbage, re-encoded by the independent encoder with one value dropped, one link slot too many, one too few, each adjacent key pair swapped; Height + 1..3; other branch factors; reversed KeyCompare; KeysLike of another type. An independent applicability predicate decides whether the statement demands rejection; if so LoadMast must return an error (a tree or a panic is a violation), otherwise the outcome is only recorded; non-trivial = a perturbation for which rejection is demanded; distinct by (root, perturbation)",
+		Rule: "case = one valid persisted root (both formats, int/uint64/string/bytes/struct/user keys, bf 2..16, top node with >= 2 keys where possible, heights 0..6, with and without a node cache that already holds the top node) and every applicable perturbation of (root, store, config): NodeFormat unknown / the other format; Link to a missing node; top-node bytes truncated at every offset (thorough) or 24 sampled offsets (quick), replaced by garbage, re-encoded by the independent encoder with one value dropped, one link slot too many, one too few, each adjacent key pair swapped; Height + 1..3; other branch factors; reversed KeyCompare; KeysLike of another type. An independent applicability predicate decides whether the statement demands rejection; if so LoadMast must return an error (a tree or a panic is a violation), otherwise the outcome is only recorded; non-trivial = a perturbation for which rejection is demanded; distinct by (root, kind of perturbation)",
 		Assumptions: []string{
 			"branch factors < 2 and heights below the recorded one are outside the statement; perturbations that leave a node the strict independent decoder still accepts as well-formed are not judged",
 		},
@@ -101,7 +101,9 @@ func runC19(c *fw.C) {
 			c.Obs("perturbations_not_judged", 1)
 		} else {
 			c.Obs("perturbations_demanding_rejection", 1)
-			c.NonTrivial(fw.Mix(fw.StrHash(rootStr(&root)), fw.StrHash(kind+what)))
+			// distinct by (root, kind of perturbation); the individual offsets / swapped pairs are
+			// counted in perturbations_demanding_rejection
+			c.NonTrivial(fw.Mix(fw.StrHash(rootStr(&root)), fw.StrHash(kind)))
 		}
 		var t *mast.Mast
 		var err error
